@@ -64,6 +64,18 @@ def at_rules(ctx, I, rmap=None):
                         name = fct[1][1]
                 acts.append(name)
         acted = bool(acts)
+        # whether an entry applies is decided by the command name and by whether its pattern matched the parameters - not by
+        # properties of the matched text (an empty match is a match)
+        import re as _re
+        for k in s.dom:
+            r = repr(k)
+            if 'parameterPattern.match(' in r and _re.search(r"parameterPattern\.match\([^()]*\)\.", r):
+                ctx.instance(R('C14.R0'), ('match-derived', r[:80]))
+                ctx.report(R('C14.R0'), 'AtCommandAction.matches', 'an entry applies depending on %s' % _re.search(r"atEntries\[\d+\]\.parameterPattern\.match\([^()]*\)\.[A-Za-z_]+(\([^()]*\))?", r).group(0),
+                           'the decision whether a configured action matches is taken on a property of the match (its text, a '
+                           'group, its span) instead of on the match itself: a pattern that matches the empty string - a '
+                           'parameterless custom @-command, an optional keyword - never fires')
+                break
         writes = [(e[2], live_alts(s, e[3])) for e in s.trace if e[0] == 'write' and e[1] == 'ExcludeRegionState'
                   and e[2] not in ('numCommands', 'numExcludedCommands')]
         sends = [e[2][0] if e[2] else None for e in s.trace if e[0] == 'ext' and e[1].endswith('sendCommand')]
